@@ -2735,3 +2735,43 @@ Proof.
 Qed.
 Lemma mk_pd_ok net nb pl : alloc_ok (d_al (mk_pd net nb pl)).
 Proof. unfold mk_pd. cbn [d_al]. split; [|reflexivity]. cbn [a_free]. apply NoDup_rev, nseq_nodup. Qed.
+
+(* ================================================================== *)
+(* 12. range replays on the repaired receiver                           *)
+(* ================================================================== *)
+(* a gap-free run that starts at or before the first undelivered message is a sequence of duplicates followed by new
+   messages: delivery_runs is a special case of delivery *)
+Lemma run_is_delivery reqs d m' : forall n i m,
+  (i <= m)%nat -> (m <= i + n)%nat -> (i + n <= length reqs)%nat ->
+  delivery reqs (i + n) d m' -> delivery reqs m (firstn n (skipn i reqs) ++ d) m'.
+Proof.
+  induction n as [|n IH]; intros i m Him Hmn Hlen Hd.
+  - rewrite Nat.add_0_r in *. replace m with i by lia. exact Hd.
+  - destruct (nth_error reqs i) as [q|] eqn:Eq; [|apply nth_error_None in Eq; lia].
+    rewrite (skipn_cons_nth i reqs q Eq). cbn [firstn app].
+    replace (i + S n)%nat with (S i + n)%nat in Hd by lia.
+    destruct (Nat.eq_dec i m) as [->|Hne].
+    + apply dl_next; [exact Eq|]. apply IH; try lia. exact Hd.
+    + apply (dl_dup reqs m i); [lia|exact Eq|]. apply IH; try lia. exact Hd.
+Qed.
+
+Lemma runs_are_deliveries reqs m d m' : delivery_runs reqs m d m' -> delivery reqs m d m'.
+Proof.
+  induction 1 as [m|m a b d m' Ha Hb Hlen Hd IH]; [apply dl_nil|].
+  apply (run_is_delivery reqs d m' (b - a) a m); try lia. replace (a + (b - a))%nat with b by lia. exact IH.
+Qed.
+
+Lemma pools_exact_replays g0 cap g evs d :
+  g <> 0%N -> (forall e, In e evs -> s_srg (fst e) = g) -> (N.of_nat (length evs) < n64)%N ->
+  fresh g0 ->
+  (forall i, (i <= length evs)%nat -> uniq g0 (live_run (firstn i evs))) ->
+  let reqs := snd (sender_run [(g, (0%N, new_ring cap))] evs) in
+  delivery_runs reqs 0 d (length reqs) ->
+  rc_store (recv_run repaired (mkrecv [] [] g0) d) = expected_store (live_run evs) /\
+  forall x sid, lease_at (rc_reg (recv_run repaired (mkrecv [] [] g0) d)) x = Some sid <->
+                In (x, sid) (expected_leases g0 (live_run evs)).
+Proof.
+  intros Hg Hall Hlt Hf Hu reqs Hd. apply runs_are_deliveries in Hd. split.
+  - exact (proj1 (converges_store g0 cap g evs d Hg Hall Hlt Hd)).
+  - exact (pools_exact g0 cap g evs d Hg Hall Hlt Hf Hu Hd).
+Qed.
